@@ -242,6 +242,7 @@ def h_step(E, shape):
         lg.propagate = False
         lg.setLevel(logging.DEBUG)
     ncalls = len(ctx["spec"]["calls"])
+    nreads = len(ctx["clock"].reads)
     try:
         r = ctx["controller"].compute_step(it, rho, dt, display, ctx["timer"])
     finally:
@@ -249,6 +250,11 @@ def h_step(E, shape):
         lg.setLevel(logging.ERROR)
     raised = ctx["rec"]["raised"]
     E.prove(isinstance(r, boot.mod("step.step_control").StepControlResult), "C06.compute_step_always_returns_a_result")
+    if ctx["tl"] != INF:
+        # a deadline that expires at a clock read inside the step computation ends it without a step:
+        # nothing half-computed is handed back as accepted
+        expired = lor(False, *[t - ctx["timer"].start >= ctx["tl"] for t in ctx["clock"].reads[nreads:]])
+        E.prove(implies(expired, land(not r.accepted, r.iterate is it)), "C08.deadline_inside_step_computation_yields_no_step")
     # ---- C05: every user-function evaluation and every iterate produced lies in the box
     for (kind, xs, ys, site) in ctx["spec"]["calls"][ncalls:]:
         E.prove(common.in_box(xs, ctx["lb"], ctx["ub"]), "C05.evaluation_point_in_box", info=dict(kind=kind, site=site))
@@ -359,3 +365,46 @@ def h_rcond_effect(E, shape):
     E.prove(core.iff(bool(r0.accepted), bool(r1.accepted)) and (r0.accepted is None) == (r1.accepted is None), "C09.rcond_values_do_not_change_acceptance")
     E.prove(r0.lamb == r1.lamb, "C09.rcond_values_do_not_change_the_step_size")
     E.prove(land(common.eq_all(items(r0.iterate.x), items(r1.iterate.x)), common.eq_all(items(r0.iterate.y), items(r1.iterate.y))), "C09.rcond_values_do_not_change_the_iterate")
+
+
+def h_display_effect(E, shape):
+    """C09: the inner display is observation only -- the same step computation from the same
+    controller memory with display off and with display on (DEBUG level, so that the inner rows are
+    really formatted) returns the same result and leaves the same controller memory behind"""
+    import logging
+
+    from . import twin
+
+    ctx = setup(E, dict(shape))
+    SC = boot.mod("step.step_control")
+    it, rho, dt = ctx["it"], ctx["rho"], ctx["dt"]
+    c1 = ctx["controller"]
+    c2 = SC.step_controller(ctx["problem"], ctx["params"])
+    if shape["controller"] in ("ResiduumRatio", "DistanceRatio"):
+        c2.controller.controller.error_sum = E.real("pi_error_sum")
+    if hasattr(c1, "lamb"):
+        # arbitrary controller memory left by earlier steps (the same in both runs)
+        l0 = E.real("ctrl_lamb", lo=0, lo_strict=True)
+        c1.lamb = l0
+        c2.lamb = l0
+    lg = logging.getLogger("gradflow")
+    try:
+        r0 = c1.compute_step(it, rho, dt, False, ctx["timer"])
+        ctx["replay"].update(script=list(ctx["replay"]["outs"]), outs=[])
+        del ctx["solves"][:]
+        if not any(isinstance(h, logging.NullHandler) for h in lg.handlers):
+            lg.addHandler(logging.NullHandler())
+        lg.propagate = False
+        if shape.get("debug", True):
+            lg.setLevel(logging.DEBUG)
+        r1 = c2.compute_step(it, rho, dt, True, ctx["timer"])
+    finally:
+        ctx["rec"]["restore"]()
+        lg.setLevel(logging.ERROR)
+    E.prove(not ctx["replay"]["beyond"], "C09.display_does_not_change_the_newton_iterations")
+    E.prove(core.iff(bool(r0.accepted), bool(r1.accepted)), "C09.display_does_not_change_acceptance")
+    E.prove(r0.lamb == r1.lamb, "C09.display_does_not_change_the_step_size")
+    E.prove(land(common.eq_all(items(r0.iterate.x), items(r1.iterate.x)), common.eq_all(items(r0.iterate.y), items(r1.iterate.y))), "C09.display_does_not_change_the_iterate")
+    s1, s2 = dict(twin.object_state(c1)), dict(twin.object_state(c2))
+    E.prove(sorted(s1) == sorted(s2), "C09.display_leaves_the_same_controller_memory")
+    E.prove(land(*[s1[k] == s2[k] for k in s1 if k in s2]), "C09.display_leaves_the_same_controller_memory")
